@@ -1060,7 +1060,21 @@ pub fn edge_package(k: u64) -> Option<Vec<(String, Vec<u8>)>> {
     let mut sst = "<si><t>x</t></si>".to_string();
     let mut after_data = String::new();
     let mut sheet_rels: Option<String> = None;
+    let mut wrels = wrels;
+    let mut sheet2: Option<String> = None;
     let data = match k {
+        // a DUPLICATED relationship id in the workbook's relationships part (OPC forbids it): reader/xlsx.rs reads the
+        // part of every relationship with the sheet's r:id and keeps the LAST (model `sheetRel`, theorem
+        // C03_sheet_part_last); the decoder names the first and reports a diagnostic, so `c03 decode` compares the head
+        // of the view only and `c03 model` the sheet (value 2 from sheet2.xml, a merged range only there)
+        15 => {
+            wrels = format!("{}<Relationships xmlns=\"{}\"><Relationship Id=\"rId1\" Type=\"{}/worksheet\" Target=\"worksheets/sheet1.xml\"/><Relationship Id=\"rId2\" Type=\"{}/styles\" Target=\"styles.xml\"/><Relationship Id=\"rId3\" Type=\"{}/sharedStrings\" Target=\"sharedStrings.xml\"/><Relationship Id=\"rId1\" Type=\"{}/worksheet\" Target=\"worksheets/sheet2.xml\"/></Relationships>", DECL, NS_PKG_REL, NS_R, NS_R, NS_R, NS_R);
+            sheet2 = Some(format!("{}<worksheet xmlns=\"{}\" xmlns:r=\"{}\"><sheetData><row r=\"1\"><c r=\"A1\"><v>2</v></c><c r=\"B1\" t=\"s\"><v>0</v></c></row></sheetData><mergeCells count=\"1\"><mergeCell ref=\"A5:B6\"/></mergeCells></worksheet>", DECL, NS_MAIN, NS_R));
+            "<row r=\"1\"><c r=\"A1\"><v>1</v></c></row>".to_string()
+        }
+        // the non-vacuity example of C03_sheet_store (Thm/C03Store.lean `dupRows`): position A1 three times (twice in
+        // row 1, once more in a second <row r="1">), B1 once: Cells::set_fast keeps the LAST cell of a position
+        16 => "<row r=\"1\"><c r=\"A1\"><v>1</v></c><c r=\"B1\"><v>2</v></c><c r=\"A1\"><v>3</v></c></row><row r=\"1\"><c r=\"A1\" t=\"str\"><v>last</v></c></row>".to_string(),
         // a shared-formula child left of / below its master whose relative reference would leave the grid
         1 => "<row r=\"2\"><c r=\"C2\"><f t=\"shared\" ref=\"B2:C3\" si=\"0\">A1+$A$1</f><v>1</v></c></row><row r=\"3\"><c r=\"B3\"><f t=\"shared\" si=\"0\"/><v>2</v></c><c r=\"C3\"><f t=\"shared\" si=\"0\"/><v>3</v></c></row>".to_string(),
         // the same block inside the grid: children left-below and below
@@ -1132,10 +1146,13 @@ pub fn edge_package(k: u64) -> Option<Vec<(String, Vec<u8>)>> {
     if let Some(r) = sheet_rels {
         v.push(("xl/worksheets/_rels/sheet1.xml.rels".into(), r.into_bytes()));
     }
+    if let Some(s2) = sheet2 {
+        v.push(("xl/worksheets/sheet2.xml".into(), s2.into_bytes()));
+    }
     Some(v)
 }
 
-pub const N_EDGE: u64 = 14;
+pub const N_EDGE: u64 = 16;
 
 /// edge 14: where defined names live after loading (the example package of `C03_names_home`, Thm/C03Names.lean
 /// `exampleNames`).  Three sheets `Data`, `S 2`, `T&U` (escaped in the attribute); names:
@@ -1541,7 +1558,21 @@ pub fn run_case(out: &mut Out, header: &str) {
         Ok(Err(e)) => format!("read-error {}", format!("{:?}", e).replace('\n', " ")),
         Err(_) => "read-panicked".into(),
     };
-    let reply = format!("errs=0;;view={}", dview_of(out, &v));
+    // a relationships part with a duplicated Id (OPC Part 2 9.3.2.2 forbids it): the decoder resolves the id to the
+    // first relationship and reports a diagnostic, the library reads the last; compared is what both define: the head of
+    // the view (active tab, sheet list, defined names).  The sheets are compared with the reader MODEL in `c03 model`.
+    let dup_rel = parts.iter().any(|(n, d)| n.ends_with(".rels") && has_duplicate_rel_id(d));
+    let reply = if dup_rel && !v.starts_with("read-") && !v.starts_with("view-") {
+        out.count("case.duplicate-relationship-id");
+        let dv = dview_of(out, &v);
+        format!("errs=dup-rel-ids;;view={}", dv.split(" # ").next().unwrap_or(""))
+    } else if a[2] == "edge" && a.get(3) == Some(&"16") {
+        // repeated positions: the decoder must flag the order of rows / cells (`errs=order`) and show the LAST cell of a
+        // position, as the library's store does (C03_sheet_store)
+        format!("errs=order;;view={}", dview_of(out, &v))
+    } else {
+        format!("errs=0;;view={}", dview_of(out, &v))
+    };
     out.end(&line, &reply, true);
     // the Lean MODEL of the reader above the cell level (sheetData loop with shared groups, shared strings,
     // hyperlinks, merges, sheet list, defined names) against the implementation: correspondence
@@ -1554,6 +1585,27 @@ pub fn run_case(out: &mut Out, header: &str) {
     out.begin(&line);
     let reply = format!("mview={}", mview_of(&v));
     out.end(&line, &reply, true);
+}
+
+/// `Id="…"` / `Id='…'` values of the <Relationship> elements of a relationships part, textually
+fn has_duplicate_rel_id(data: &[u8]) -> bool {
+    let t = String::from_utf8_lossy(data);
+    let mut ids: Vec<String> = vec![];
+    for el in t.split('<').filter(|e| e.starts_with("Relationship ") || e.starts_with("Relationship\n") || e.starts_with("Relationship\t")) {
+        for q in ['"', '\''] {
+            let pat = format!(" Id={}", q);
+            if let Some(i) = el.find(&pat) {
+                let rest = &el[i + pat.len()..];
+                if let Some(j) = rest.find(q) {
+                    ids.push(rest[..j].to_string());
+                }
+            }
+        }
+    }
+    let n = ids.len();
+    ids.sort();
+    ids.dedup();
+    ids.len() != n
 }
 
 /// the view the independent DECODER is compared with.  Where a defined name lives: ECMA-376 18.2.5 gives a name with
